@@ -73,8 +73,38 @@ def getRawSlice (j : Json) : RawSlice :=
   { nodes := (arrOf (field j "nodes")).map getNode, svcs := (arrOf (field j "svcs")).map getRawSvc,
     facs := (arrOf (field j "facs")).map strOrEmpty, ifaces := (arrOf (field j "ifaces")).map getIface }
 
+/-- `["vobj", {"stored":[caps|null,...], "ops":[["read",i] | ["new",caps] | ["poke",h,caps] | ["write",i,h] | ["unset",i]]}]`:
+a caller's history over the value objects of a slice of VMs (node i = element i); reply: what each element presents
+afterwards and the cpu / ram / disk lists of the request collected from the live slice (reads per the regenerated flag) -/
+def getVOp (j : Json) : Option (VObj.Op Caps) :=
+  match j with
+  | .arr #[.str "read", i] => (i.getNat?.toOption).map .read
+  | .arr #[.str "new", c] => (getCaps c).map .new
+  | .arr #[.str "poke", h, c] => do some (.poke (← h.getNat?.toOption) (← getCaps c))
+  | .arr #[.str "write", i, h] => do some (.write (← i.getNat?.toOption) (← h.getNat?.toOption))
+  | .arr #[.str "unset", i] => (i.getNat?.toOption).map .unset
+  | _ => none
+
+def vobjReply (x : Json) : Json :=
+  let stored := (arrOf (field x "stored")).map getCaps
+  match (arrOf (field x "ops")).mapM getVOp with
+  | none => err "bad-op"
+  | some ops =>
+    let st := VObj.run readsFresh (⟨stored, [], []⟩ : VObj.St Caps) ops
+    let ns : List NodeS := (List.range stored.length).map fun i => ⟨s!"v{i}", vmType, "S", none, none, none⟩
+    let sl := liveSlice readsFresh ⟨ns, [], [], []⟩ st ⟨[], [], []⟩
+    let caps (c : Option Caps) : Json := match c with
+      | some c => ofInts [c.core, c.ram, c.disk]
+      | none => Json.null
+    ok (Json.mkObj [
+      ("presented", Json.arr ((List.range stored.length).map fun i => caps (VObj.presented readsFresh st i)).toArray),
+      ("handles", Json.num (JsonNumber.fromNat st.heap.length)),
+      ("cpu", ofVals (get (collect sl) .RESOURCE_CPU)), ("ram", ofVals (get (collect sl) .RESOURCE_RAM)),
+      ("disk", ofVals (get (collect sl) .RESOURCE_DISK)), ("cores", Json.num (JsonNumber.fromInt (logCollect sl).cores))])
+
 def handle (j : Json) : Json :=
   match j with
+  | .arr #[.str "vobj", x] => vobjReply x
   | .arr #[.str op, x] =>
     let sl := getSlice x
     if op == "authz" then authzReply (collect sl)
